@@ -47,6 +47,12 @@ Definition prop (k : case) : bool :=
       let flagged := map t_key (filter t_ptm atoms) in
       (* every unexplained atom is handled by some run *)
       forallb (fun x => existsb (fun r => existsb (fun g => zmem x (fst g)) (r_groups r)) runs) flagged
+      (* the graph in which the modifications of a group are looked for holds every atom of every residue the group
+         touches: the residues of its unexplained atoms and of the recognised atoms they are bonded to *)
+      && forallb (fun r => forallb (fun g =>
+           let touched := map (fun k => match find (fun a => Z.eqb (t_key a) k) atoms with Some a => t_resid a | None => -1 end) (fst g ++ snd g) in
+           (* (unexplained atoms of other groups may have been removed by an earlier run that identified nothing) *)
+           forallb (fun a => negb (zmem (t_resid a) touched) || (t_ptm a && negb (zmem (t_key a) (fst g))) || zmem (t_key a) (r_residue r)) atoms) (r_groups r)) runs
       && forallb (fun r =>
            let G := residue_graph (restrict atoms (r_residue r)) es in
            let mine := flat_map fst (r_groups r) in
